@@ -83,4 +83,15 @@ Conforming(s) == \A i \in 1..Len(s.ents) : \A j \in 1..Len(s.ents[i].attrs) :
 Pop(s, n) == [i \in 1..Cardinality(Instantiable(s)) |->
                 LET e == CHOOSE e \in Instantiable(s) : Cardinality({x \in Instantiable(s) : x < e}) = i - 1 IN
                 [id |-> IdOf(e), ent |-> s.ents[e].name, params |-> Params(s, s.ents[e].name, n)]]
+
+(* editing states for C16: complete / incomplete / new rotate with the round; an instance that no other instance *)
+(* refers to is marked deleted every fourth time (the properties leave a deleted but referenced instance open)   *)
+RECURSIVE RefsOf(_)
+RefsOf(v) == CASE v.k = "ref" -> {v.id}
+               [] v.k = "typed" -> RefsOf(v.v)
+               [] v.k = "list" -> UNION {RefsOf(v.items[i]) : i \in 1..Len(v.items)}
+               [] OTHER -> {}
+Referenced(pop) == UNION {UNION {RefsOf(pop[i].params[j]) : j \in 1..Len(pop[i].params)} : i \in 1..Len(pop)}
+StateOf(pop, i, n) == IF pop[i].id \notin Referenced(pop) /\ (n + i) % 4 = 3 THEN "D" ELSE <<"C", "I", "N">>[((n + i) % 3) + 1]
+States(pop, n) == [i \in 1..Len(pop) |-> StateOf(pop, i, n)]
 =============================================================================
